@@ -55,6 +55,13 @@ func (l *CountLogger) Error(err error, msg string, kv ...interface{}) {
 	l.Errors++
 	if l.nmsg < len(l.msgs) {
 		l.msgs[l.nmsg] = msg
+		if err != nil && strings.Contains(msg, "panic") {
+			if e := err.Error(); len(e) > 600 {
+				l.msgs[l.nmsg] = msg + ": " + e[:600]
+			} else {
+				l.msgs[l.nmsg] = msg + ": " + e
+			}
+		}
 		l.nmsg++
 	}
 }
